@@ -173,6 +173,10 @@ def _run_case(case, ctx, fam):
         try:
             out = H.apply_op(case["family"], m, op, state)
         except Exception as e:
+            if op in ("load_sd", "load_sd_same", "load_sd_partial"):
+                # loading (all or part of) a state dict the model itself produced is never refused
+                ctx.fail("load_state_dict_accepted", f"{op} raised {type(e).__name__}: {str(e)[:140]} ({case['family']}, step {i} of {case['seq']})", "raise", exc=type(e).__name__, op=op, family=case["family"])
+                return
             ctx.reject(f"operation raised: {case['family']}:{op}: {type(e).__name__}: {str(e)[:60]}")
             ctx.info["rejected_history:" + type(e).__name__] += 1
             ctx.info[f"raised:{case['family']}:{op}:{type(e).__name__}"] += 1  # (an operation that ALWAYS raises for a family is a blind spot: tools/blindspots.py)
